@@ -384,6 +384,25 @@ def run(ctx):
               (["p = C(5,2)", "p", "p*1"], "I:10", "a variable holding C(5,2), displayed, then multiplied"),
               (["k = C(10,3)", "k + 0", "k*2"], "I:240", "a variable holding C(10,3), used, then multiplied"),
               (["f = 5!", "f", "f/4!"], "I:5", "a variable holding 5!, displayed, then divided")]
+    # a variable reads as the value assigned, whatever the right-hand side is (a conversion, a comparison, a lazy value)
+    for _rhs in ("5 m to cm", "2 hours to minutes", "1 + 2 kg to g", "3 < 4", "(3 < 4) + 1", "5!/3!", "{1, 2} ", "[1, 2] * 2", "90 deg to rad"):
+        _items += [(["%s" % _rhs], None, None)]     # placeholder replaced below
+    _rhs_list = [i[0][0] for i in _items if i[1] is None]
+    _items = [i for i in _items if i[1] is not None]
+    _vals = C.run_sessions(ctx["rundir"], [[r] for r in _rhs_list])
+    for _r, _o in zip(_rhs_list, _vals):
+        _want = _o[-1].get("value") if isinstance(_o, list) and _o[-1].get("status") == 0 else None
+        if _want is not None:
+            _items += [(["x = %s" % _r, "x"], _want, "x reads as the value of the right-hand side it was assigned"),
+                       (["x = %s; x" % _r], _want, "x reads as the value of the right-hand side (one input)"),
+                       (["y = 1", "x = %s" % _r, "y = x", "y"], _want, "the value survives a second assignment")]
+    # reading an unassigned name is an error (a diagnosed one), whatever the name looks like: a unit, a prefixed unit,
+    # a prefix on an offset unit, a function, a keyword-like word
+    _diag = (lambda o: o.get("status") == 1 and not o.get("escaped") and (o.get("err") or "").strip() != "" and (o.get("out") or "") == "")
+    for _n in ("kdegC", "mdegF", "kilodegC", "millidegF", "km", "metre", "sin", "eur", "zz9", "kK", "udegC", "YdegF"):
+        _items += [([_n], _diag, "reading the unassigned name %s is a diagnosed error" % _n),
+                   (["a = 1", "b = %s + 1" % _n, "a"], "I:1", "a failing statement that reads an unassigned name leaves earlier bindings alone"),
+                   (["a = 1; b = %s + 1; c = 3" % _n], _diag, "reading an unassigned name inside a statement list is a diagnosed error")]
     C.expect_sessions(ctx["report"], ctx["rundir"], "C14", _items)
     rep, tier, seed = ctx["report"], ctx["tier"], ctx["seed"]
     rng = random.Random(seed * 7877 + 14)
